@@ -473,7 +473,8 @@ pub fn gen_history(rng: &mut Rng) -> Vec<Op> {
                 let i = rng.below(nd as u64) as usize;
                 let g0 = grace_seen.get(i).copied().unwrap_or(1);
                 let grace = match rng.below(8) { 0 => None, 1 => Some(g0.saturating_sub(1)), 2 => Some(g0), 3 => Some(g0 + 1), 4 => Some(30), 5 => Some(31), 6 => Some(0), _ => Some(1 + rng.below(31)) };
-                let dur = match rng.below(6) { 0 => Some(DAY_NS - 1), 1 => Some(DAY_NS), 2 => Some(DAY_NS + 1), 3 => Some(0), _ => None };
+                // durations include multiples of a day, so that a lower grace period can come together with a longer epoch
+                let dur = match rng.below(8) { 0 => Some(DAY_NS - 1), 1 => Some(DAY_NS), 2 => Some(DAY_NS + 1), 3 => Some(0), 4 => Some(2 * DAY_NS), 5 => Some(7 * DAY_NS), _ => None };
                 Op::DistUpd { who: gen_who(rng), i, grace, dur }
             }
             85..=88 => { let n = rng.below(4) as usize; let mut kinds = vec![false; n]; if n > 0 && rng.chance(1, 4) { let j = rng.below(n as u64) as usize; kinds[j] = true; }
